@@ -17,15 +17,15 @@ def obligations():
                     stubs=['opus_decode_frame: synth stub (C01-H3 contract)'],
                     bounds='Fs=%d; any decoder state; NULL / empty packet, or decode_fec=1 with any %d-byte packet (<= %d frames, any len); any frame_size from 1 sample to %d ms' % (FSN[fsi], pl, mc, ms)))
     # the concealment size rule on the real opus_decode_frame (C01-H3 harness restricted to NULL packets)
-    for fsi, tier in ((0, 'quick'), (4, 'thorough')):
+    for fsi, tier in ((0, 'thorough'),):
         F20 = FSN[fsi] // 50
-        L.append(Ob('H3.concealment_size_rule.fs%d' % FSN[fsi], 'C01_frame.c', ['celt/entdec.c', 'celt/entcode.c'], ['-DFSI=%d' % fsi, '-DPL=6', '-DPLCONLY'], unwind=1,
+        L.append(Ob('H3.concealment_size_rule.fs%d' % FSN[fsi], 'C01_frame.c', ['celt/entdec.c', 'celt/entcode.c'], ['-DFSI=%d' % fsi, '-DPL=6', '-DPLCONLY', '-DCHSEL=1'], unwind=1,
                     replace=['smooth_fade_REAL:stub_fade'], memwords=F20 // 2 + 2,
-                    unwindset=['harness:7', 'opus_decode_frame:%d' % (F20 * 2 + 2), 'opus_decode_frame@decoded_samples < frame_size:5', 'opus_decode_frame@audiosize > 0:8',
+                    unwindset=['harness:7', 'opus_decode_frame:%d' % (F20 // 2 + 6), 'opus_decode_frame@decoded_samples < frame_size:5', 'opus_decode_frame@audiosize > 0:8',
                                'opus_decode_frame@c<st->channels:3', 'opus_decode_frame@i<F2_5:%d' % (F20 // 8 + 1), 'rec:opus_decode_frame:3', 'ec_dec_init:5', 'ec_dec_normalize:5', 'ec_dec_uint:3', 'ec_dec_bits:5'],
-                    functions=['opus_decode_frame'], budget=600, tier=tier, replay=False, mem_gb=16,
+                    functions=['opus_decode_frame'], budget=3000, tier=tier, replay=False, mem_gb=16,
                     stubs=['silk_Decode, celt_decode_with_ec(_dred), smooth_fade: synth stubs touching exactly the region their contract lets them write', 'celt_decoder_ctl: argument-checking stub'],
-                    bounds='concealment requests (NULL packet) on the real opus_decode_frame: Fs=%d; any mode / previous mode / redundancy / last frame duration, 1-2 channels; any frame_size 0..20 ms + 3 samples in a buffer that ends with its object' % FSN[fsi]))
+                    bounds='concealment requests (NULL packet) on the real opus_decode_frame: Fs=%d; any mode / previous mode / redundancy / last frame duration, mono; any frame_size 0..10 ms + 3 samples in an exact-size buffer' % FSN[fsi]))
     L.append(Ob('H2.has_lbrr_flag_positions', 'C01_inspect.c', INS_SRC, ['-DMAXLEN=12', '-DCODE=0'], unwind=1,
                 unwindset=['harness:13', 'harness.2:49', 'opus_packet_parse_impl:4'], functions=['opus_packet_has_lbrr'], budget=600,
                 bounds='any code-0 packet of 0..12 bytes: opus_packet_has_lbrr == the LBRR flag at its RFC 6716 4.2.3 position for 10/20/40/60 ms mono/stereo SILK and hybrid frames, 0 for CELT'))
